@@ -43,6 +43,7 @@ func newFlatFrom(b []byte) *ByteStore {
 	}
 	return s
 }
+
 // newSymStore: a store of unbounded size whose content is an uninterpreted function of the
 // index.  Reads are Ackermannised: one fresh byte variable per distinct index term plus the
 // functional-consistency constraints against the earlier reads of the same base.
@@ -97,7 +98,6 @@ func (s *ByteStore) snapshot() *histNode {
 	}
 	return s.h
 }
-
 
 func readHist(h *histNode, idx *Term) *Term {
 	switch h.kind {
@@ -236,8 +236,8 @@ type Slice struct { // non-byte slice
 	off, len, cap int
 	et            types.Type
 }
-type SlotPtr struct{ p *Value }                 // pointer to a value slot
-type BytePtr struct {                            // pointer to a byte inside a store
+type SlotPtr struct{ p *Value } // pointer to a value slot
+type BytePtr struct {           // pointer to a byte inside a store
 	st  *ByteStore
 	off *Term
 }
